@@ -299,3 +299,17 @@ PROPS["C06"] = {
         {"name": "TestProp_C06_AKEStates", "kind": "plain", "quick": {"shards": 8, "timeout": 600}, "thorough": {"shards": 16, "timeout": 3000}},
     ],
 }
+
+PROPS["C08"] = {
+    "level": "exploration",
+    "technique": "property-based testing (rapid, lifecycle scripts) with an invariant over the reachable object graph: a reflect/unsafe walker (no otr3 identifiers) searches everything reachable from the conversation, to slice capacity and big-integer limbs, for every secret the tracked randomness source ever handed out and for every text token; retired secrets are additionally checked for in-place erasure through retained aliases",
+    "level_text": "after every API call of generated histories (rotations, re-AKE, abandoned AKE, SMP, End, peer disconnect, queued texts): at most current+previous DH exponent (+1 during a key exchange) reachable, nothing of a finished/abandoned exchange, nothing after End/disconnect, no sent text except queued ones and the most recent, and every buffer that ever held a now-unreachable secret has been zeroed",
+    "level_note": "copies on goroutine stacks, in the garbage collector or inside crypto/constbn internals are invisible; the AKE value r is public once revealed, so only the place it was drawn into is judged; SMP exponents are judged for reachability after End/disconnect only; under v2 SMP is left out of the scripts (its 16-byte exponents cannot be told from r)",
+    "rule": ("ops: ping-pong rounds, sends (also under require-encryption, which queues), deliveries, drops, queries at any moment (abandons the exchange in progress), session establishment, End, peer End, SMP start/answer/abort, extra key, clock ageing. "
+             "Secrets = every 40-byte (DH exponent), 16-byte (r, v3) and 192-byte (SMP) draw; the harness derives from the API-visible events which exponent belongs to the exchange in progress and which two are the session's current/previous keys. "
+             "Non-trivial: >=2 rotations of a party's key and at least one abandoned exchange, End or peer disconnect."),
+    "assumptions": COMMON_ASSUME,
+    "tests": [
+        {"name": "TestProp_C08_Secrets", "quick": {"shards": 8, "checks": 60, "timeout": 600}, "thorough": {"shards": 16, "checks": 1500, "timeout": 3000}},
+    ],
+}
